@@ -580,7 +580,7 @@ class Interp:
         if a == b:
             return a
         ka, kb = a[0], b[0]
-        if ka != kb:
+        if ka != kb and not ({ka, kb} <= {'fn', 'fnset'}):
             return ('top', 'join')
         if ka == 'int':
             if a[2] == b[2]:
@@ -666,6 +666,12 @@ class Interp:
             return ('adt', a[1], variants, fields)
         if ka == 'closure':
             return a if a[1] == b[1] else ('top', 'join')
+        if ka in ('fn', 'fnset'):
+            # function values: the set of functions the pointer may denote
+            sa = a[1] if ka == 'fnset' else frozenset([a[1]])
+            sb = b[1] if kb == 'fnset' else frozenset([b[1]])
+            u = sa | sb
+            return ('fnset', u) if len(u) <= 64 else ('top', 'join')
         return ('top', 'join')
 
     def import_cells(self, out, src, cids):
